@@ -2,11 +2,11 @@
 // (included by props/C04_strings.cpp).
 //
 // Which calls overflow on purpose (a "clamp event": applied to the etl string only, invariant checked, model re-synced):
-//   append(n,ch), append(cstr), append(p,n), append(view[,pos[,n]]), += ch / cstr / view, resize beyond capacity,
-//   str+str(other capacity), str+cstr, str+ch                       -- these clamp to capacity in the library.
+//   append(n,ch), append(cstr), append(p,n), append(view[,pos[,n]]), += ch / cstr / view, resize beyond capacity
+//                                                                   -- these clamp to capacity in the library.
 // Fit-only (they go through push_back, which has TETL_PRECONDITION(size() < capacity())):
 //   append(first,last), append(str[,pos[,n]]), += str, cstr+str, ch+str, and every constructor.
-// insert/replace are only generated with results that fit (the property promises clamping for appends only).
+// insert/replace/operator+ are only generated with results that fit (the property promises clamping for appends only).
 #pragma once
 
 namespace c04 {
@@ -429,44 +429,23 @@ auto Run<Char, N>::do_modify(std::uint32_t code) -> void
 
     // ------------------------------------------------------------------ operator+ (result stored in the other string)
     case PLUS_STR_STR: {
-        auto n = std::min(ovlen(op.b, room), N2);
-        auto s = srcn(op.a, n);
+        auto s = srcn(op.a, fitlen(op.b, room));
         EO rhs(s.data(), s.size());
-        E r = *x + rhs; // appends through the string_view overload: clamps
-        if (n <= room) {
-            adopt("str+str", r, *mx + s, *y, *my);
-        } else {
-            nt_clamp = true;
-            fail(inv("str+str (clamped)", r));
-            *y = r;
-            my->assign(r.data(), r.size());
-        }
+        E r = *x + rhs; // the right-hand side has another capacity (and, where possible, the other storage layout)
+        adopt("str+str", r, *mx + s, *y, *my);
         break;
     }
     case PLUS_STR_CSTR: {
-        auto n = ovlen(op.b, room);
-        auto s = no_nul(srcn(op.a, n));
+        auto s = no_nul(srcn(op.a, fitlen(op.b, room)));
         auto b = cbuf(s);
         E r    = *x + b.get();
-        if (n <= room) {
-            adopt("str+cstr", r, *mx + s.c_str(), *y, *my);
-        } else {
-            nt_clamp = true;
-            fail(inv("str+cstr (clamped)", r));
-            *y = r;
-            my->assign(r.data(), r.size());
-        }
+        adopt("str+cstr", r, *mx + s.c_str(), *y, *my);
         break;
     }
     case PLUS_STR_CH: {
-        E r = *x + ch;
         if (room >= 1) {
+            E r = *x + ch;
             adopt("str+ch", r, *mx + ch, *y, *my);
-        } else {
-            nt_clamp = true;
-            fail(inv("str+ch (clamped)", r));
-            *y = r;
-            my->assign(r.data(), r.size());
         }
         break;
     }
